@@ -107,3 +107,22 @@ Section SIG.
         end
     end.
 End SIG.
+
+(* ------------------------------------------------------------------ *)
+(* The session secret.  handleSecureRequest / sendSecureRequest create a NEW
+   ECDH key pair for every connection (newSecureKey); secureKey.setup derives
+   extra = HKDF block of ECDH(own ephemeral key, peer's ephemeral public key).
+   The handshake keys one Authenticator used in its successive sessions must
+   therefore be pairwise different. *)
+Fixpoint mem_bytes (x : bytes) (l : list bytes) : bool :=
+  match l with [] => false | y :: r => bytes_eqb x y || mem_bytes x r end.
+Fixpoint nodup_bytes (l : list bytes) : bool :=
+  match l with [] => true | x :: r => negb (mem_bytes x r) && nodup_bytes r end.
+
+Section SESSIONS.
+  Variable eph : Type.                       (* an end's ephemeral handshake key *)
+  Variable peerpub : Type.                   (* the ephemeral public key the other end supplied *)
+  Variable xs : eph -> peerpub -> bytes.     (* extra of the session *)
+  Definition session_secrets (l : list (eph * peerpub)) : list bytes :=
+    map (fun sc => xs (fst sc) (snd sc)) l.
+End SESSIONS.
